@@ -5,7 +5,9 @@ import os
 import threading
 from concurrent.futures import ThreadPoolExecutor
 
-from common import NCPU, Inconclusive
+from common import Inconclusive
+
+MAX_TLC = 4   # at most this many TLC JVMs side by side (memory)
 
 
 def parse_hist(ctx, res, marker="HIST"):
@@ -17,7 +19,7 @@ def parse_hist(ctx, res, marker="HIST"):
     return out
 
 
-def validate_parallel(ctx, module, traces, cfg=None, timeout=1800, jobs=None):
+def validate_parallel(ctx, module, traces, cfg=None, timeout=1800, jobs=None, stats=False):
     """ctx.validate_trace on several traces concurrently.  Each job works on a
     shallow copy of ctx with a private scratch sub-directory (ctx.tlc numbers its
     run directories with a counter that is not thread-safe); TLC run summaries
@@ -31,33 +33,38 @@ def validate_parallel(ctx, module, traces, cfg=None, timeout=1800, jobs=None):
         c.n_tlc = 0
         c.tlc_runs = []
         try:
-            return validate_trace(c, module, path, cfg=cfg, timeout=timeout)
+            return validate_trace(c, module, path, cfg=cfg, timeout=timeout, stats=stats)
         finally:
             with lock:
                 ctx.tlc_runs.extend(c.tlc_runs)
 
-    with ThreadPoolExecutor(max_workers=jobs or NCPU) as ex:
+    with ThreadPoolExecutor(max_workers=jobs or MAX_TLC) as ex:
         return list(ex.map(one, list(enumerate(traces))))
 
 
-def validate_trace(c, module, trace_path, cfg=None, timeout=1800, gc_threads=2):
+def validate_trace(c, module, trace_path, cfg=None, timeout=1800, gc_threads=2, heap="3g", stats=False):
     """Like Ctx.validate_trace, but keeps each monitor JVM to a few GC threads (many monitors
     run side by side)."""
     import re
     res = c.tlc(module, cfg=cfg, files=[(trace_path, "trace.ndjson")], workers=1, timeout=timeout,
-                jvm=("-XX:ParallelGCThreads=%d" % gc_threads,))
+                jvm=("-XX:ParallelGCThreads=%d" % gc_threads,), heap=heap)
     got = None
-    for line in res["out"].splitlines():
-        m = re.match(r'<<"VERDICT", (\d+), "(.*)">>$', line)
-        if m:
-            s = m.group(2).replace('\\"', '"').replace("\\\\", "\\")
-            got = (int(m.group(1)), json.loads(s))
+    # TLC may wrap a long tuple over several lines
+    m = re.search(r'<<\s*"VERDICT",\s*(\d+),\s*"(.*?)"\s*>>\s*$', res["out"], re.M | re.S)
+    if m:
+        s = m.group(2).replace('\\"', '"').replace("\\\\", "\\")
+        got = (int(m.group(1)), json.loads(s))
     if got is None:
         print(res["out"][-3000:])
         raise Inconclusive("trace spec %s produced no VERDICT (trace not consumed to the end)" % module)
     n, bad = got
     if res["distinct"] != n + 1:
         raise Inconclusive("trace spec %s: %d states for %d events (expected a linear trace)" % (module, res["distinct"], n))
+    if stats:
+        m = re.search(r'<<\s*"STATS",\s*"(.*?)"\s*>>', res["out"], re.S)
+        if not m:
+            raise Inconclusive("trace spec %s printed no STATS" % module)
+        return n, bad, json.loads(m.group(1).replace('\\"', '"'))
     return n, bad
 
 
